@@ -135,6 +135,33 @@ class C12(Prop):
                     acc.violation("encode-history-dependent", f"{form} {sorted(names)}: {r!r} first, {r_again!r} after the caller cleared its collection", {"days": sorted(names)})
             except Exception as exc:
                 acc.violation("encode-raised", f"re-encode raised {type(exc).__name__}", {"days": sorted(names)})
+        if form in ("frozenset", "tuple", "list-reversed", "deque") and len(names) < 7:
+            # the caller keeps ONE collection object for its plan and edits it between two pushes: same object, other days
+            obj = set(arg) if form == "frozenset" else list(arg)
+            try:
+                self.tools.weekdays_to_hexadecimal(obj)
+                extra = next(self.Days[n_] for n_ in NAMES if n_ not in names)
+                if isinstance(obj, set):
+                    obj.add(extra)
+                else:
+                    obj.append(extra)
+                r2 = self.tools.weekdays_to_hexadecimal(obj)
+                self.enc_rec.drain()
+                want2 = mask_of(list(names) + [extra.name])
+                acc.ev()
+                if not (isinstance(r2, str) and int(r2, 16) == want2):
+                    acc.violation("encode-history-dependent", f"the same {type(obj).__name__} object, first {sorted(names)} then with {extra.name} added: second call returned {r2!r}, want {want2:02x}",
+                                  {"days": sorted(names)})
+                if not isinstance(obj, set):
+                    obj.append(extra)      # ... and once more, now bearing a duplicate: refused like any other
+                    try:
+                        r3 = self.tools.weekdays_to_hexadecimal(obj)
+                        acc.violation("encode-accepted-invalid", f"the same list object, grown to hold {extra.name} twice, was accepted: {r3!r}", {"days": sorted(names)})
+                    except Exception:
+                        pass
+                    self.enc_rec.drain()
+            except Exception as exc:
+                acc.violation("encode-raised", f"re-encode of an edited collection raised {type(exc).__name__}: {exc}", {"days": sorted(names)})
         want = mask_of(names)
         if not (isinstance(r, str) and len(r) == 2 and int(r, 16) == want):
             acc.violation("encode-wrong-mask", f"{form} {sorted(names)} -> {r!r}, want {want:02x}", {"days": sorted(names), "form": form, "got": r})
@@ -301,6 +328,20 @@ class C12(Prop):
         acc.count("passes_optimised_interpreter" if not __debug__ else "passes_normal_interpreter")
         if __debug__ and (self.enc_rec.evaluations == 0 or self.dec_rec.evaluations == 0):
             acc.inconclusive_because("a C12 contract was never evaluated")
+
+
+    def thread_pairs(self, ctx):
+        from ..monitors.threadops import expect
+
+        D, t = self.Days, self.tools
+        sa, sb = {D.MONDAY, D.SUNDAY}, [D.TUESDAY, D.WEDNESDAY, D.FRIDAY]
+        enc = lambda names: f"{mask_of(names):02x}"
+        return [("decode(0x02) || decode(0x08)", lambda: t.bit_summary_to_days(0x02), lambda: t.bit_summary_to_days(0x08), expect({D.MONDAY}), expect({D.WEDNESDAY})),
+                ("decode(0x54) || decode(0x54)", lambda: t.bit_summary_to_days(0x54), lambda: t.bit_summary_to_days(0x54),
+                 expect({D.TUESDAY, D.THURSDAY, D.SATURDAY}), expect({D.TUESDAY, D.THURSDAY, D.SATURDAY})),
+                ("decode(0x08) || decode(0x02)", lambda: t.bit_summary_to_days(0x08), lambda: t.bit_summary_to_days(0x02), expect({D.WEDNESDAY}), expect({D.MONDAY})),
+                ("encode(set) || encode(list)", lambda: t.weekdays_to_hexadecimal(sa), lambda: t.weekdays_to_hexadecimal(sb),
+                 expect(enc(["MONDAY", "SUNDAY"])), expect(enc(["TUESDAY", "WEDNESDAY", "FRIDAY"])))]
 
 
 PROP = C12()
